@@ -192,8 +192,38 @@ func translateDecoderReset(repo string) (map[string]string, error) {
 	if noFieldsReturns < 1 || noFieldsReturns > 2 {
 		return nil, fmt.Errorf("Validate: %d returns of errNoFields, expected 1 or 2", noFieldsReturns)
 	}
+	// encoder: what (*Encoder).reset clears between the sequences of a chain, and that the stream encoder goes through it
+	er := methodOf(ef, "Encoder", "reset")
+	if er == nil {
+		return nil, fmt.Errorf("Encoder.reset not found")
+	}
+	era, erc := assignedPaths(er.Body)
+	sf, err := parser.ParseFile(fset, filepath.Join(repo, "encoder/stream.go"), nil, 0)
+	if err != nil {
+		return nil, err
+	}
+	sc := methodOf(sf, "StreamEncoder", "SequenceCompleted")
+	wm := methodOf(sf, "StreamEncoder", "WriteMessage")
+	if sc == nil || wm == nil {
+		return nil, fmt.Errorf("StreamEncoder.SequenceCompleted / WriteMessage not found")
+	}
+	_, scc := assignedPaths(sc.Body)
+	_, wmc := assignedPaths(wm.Body)
+	for _, must := range []string{"e.enc.protocolValidator.ValidateMessage", "e.enc.options.messageValidator.Validate", "e.enc.encodeMessage"} {
+		if !wmc[must] {
+			return nil, fmt.Errorf("StreamEncoder.WriteMessage no longer calls %s: the stream model must be revisited", must)
+		}
+	}
 	var sb strings.Builder
 	sb.WriteString("(* GENERATED by fit2coq from decoder/decoder.go (Decoder.reset, CheckIntegrity) -- do not edit *)\n")
+	fmt.Fprintf(&sb, "(* encoder/encoder.go Encoder.reset, encoder/stream.go SequenceCompleted *)\n")
+	fmt.Fprintf(&sb, "Definition enc_reset_validator : bool := %s.\n", b(erc["e.options.messageValidator.Reset"]))
+	fmt.Fprintf(&sb, "Definition enc_reset_crc : bool := %s.\n", b(erc["e.crc16.Reset"]))
+	fmt.Fprintf(&sb, "Definition enc_reset_lru : bool := %s.\n", b(erc["e.localMesgNumLRU.Reset"] || erc["e.localMesgNumLRU.ResetWithNewSize"]))
+	fmt.Fprintf(&sb, "Definition enc_reset_datasize : bool := %s.\n", b(era["e.dataSize"]))
+	fmt.Fprintf(&sb, "Definition enc_reset_tsref : bool := %s.\n", b(era["e.timestampReference"]))
+	fmt.Fprintf(&sb, "Definition enc_reset_lastts : bool := %s.\n", b(era["e.lastTimestamp"]))
+	fmt.Fprintf(&sb, "Definition stream_completed_resets : bool := %s.\n", b(scc["e.enc.reset"]))
 	fmt.Fprintf(&sb, "Definition reset_clears_definitions : bool := %s.\n", b(clearsDefs))
 	fmt.Fprintf(&sb, "Definition reset_clears_developer_tables : bool := %s.\n", b(clearsDev))
 	fmt.Fprintf(&sb, "Definition integrity_drops_buffer : bool := %s.\n", b(dropsBuf))
